@@ -12,37 +12,37 @@ CHECKS = {
          "DESIGN.md §4 C15"),
  "C17": ("model_checking",
          "probabilistic explicit-state exploration: all generator scripts of the real shuffle enumerated",
-         "The real FYshuffle is run under a scripted generator that the harness fully controls; all m! scripts for m<=9 (quick) / m<=11 (thorough) are enumerated and the map script->order is shown to be a bijection onto the permutations, so every order has probability prod 1/r exactly (up to the 2^-52 granularity of the generator, whose interval boundaries are probed word by word for every r<=64 and selected r up to 2^26). All pre-reset histories up to 2m draws followed by reset and all m! scripts are compared with a fresh instance, and all scripts of 2m-3m draws without reset are checked block-wise. Exact, no tolerance.",
+         "The real FYshuffle is run under a scripted generator that the harness fully controls; all m! scripts for m<=9 (quick) / m<=11 (thorough) are enumerated and the map script->order is shown to be a bijection onto the permutations, so every order has probability prod 1/r exactly (up to the 2^-52 granularity of the generator, whose interval boundaries are probed word by word for every r<=64 and selected r up to 2^26). All pre-reset histories up to 2m draws followed by reset and all m! scripts are compared with a fresh instance (m<=4(5)); for m in {64,128,192,256,1000,(4096)} all histories of 1-2 draws and small-choice histories of 3-4 draws followed by reset are compared with a fresh instance, and all scripts of 2m-3m draws without reset are checked block-wise. Exact, no tolerance.",
          "rand's Uniform<f64> word->value map (self-checked); sizes beyond the bound not explored",
          "DESIGN.md §4 C17"),
  "C16": ("model_checking",
          "probabilistic explicit-state exploration: all generator scripts on a grid, rejection chain solved exactly",
-         "The real ExpRestricted01::sample is run under a scripted generator: every first-try value on a 2^20 (2^22) grid and every (u2,u3) pair on a 4096^2 (16384^2) grid behind a loop-forcing first word, plus all 8^5 scripts over extreme generator words. The sampler is a 3-state Markov chain (first try / loop / output) whose output distribution is solved exactly from the enumerated transition masses and compared on 64 bin edges with (1-exp(-lambda t))/(1-exp(-lambda)) for ~50 (quick) / ~280 (thorough) rates from 1e-9 to 50; every output is checked to lie in [0,1). Decides the law up to the stated discretisation tolerance (observed error 1e-7..5e-5, tolerance 2.5e-4..1e-3 quick).",
+         "The real ExpRestricted01::sample is run under a scripted generator: every first-try value on a 2^20 (2^22) grid and every (u2,u3) pair on a 4096^2 (16384^2) grid behind a loop-forcing first word, plus all 8^5 scripts over extreme generator words and the 81 generator values around the accept/loop boundary 1/c1. The sampler is a 3-state Markov chain (first try / loop / output) whose output distribution is solved exactly from the enumerated transition masses and compared on 64 bin edges with (1-exp(-lambda t))/(1-exp(-lambda)) for ~50 (quick) / ~280 (thorough) rates from 1e-9 to 50; every output is checked to lie in [0,1). Decides the law up to the stated discretisation tolerance (observed error 1e-7..5e-5, tolerance 2.5e-4..1e-3 quick).",
          "rand's Uniform<f64> word->value map (self-checked); tolerance max(1,0.2/P(accept))/N+1e-5; rates outside the list not explored",
          "DESIGN.md §4 C16"),
  "C19": ("exploration",
          "exhaustive input-domain enumeration (all 2^32 arguments; structured sub-domains of 2^64)",
-         "The 32-bit pair is decided completely: all 2^32 arguments, both compositions. For the 64-bit pair complete enumeration is impossible; complete structured sub-domains are swept (consecutive blocks of 2^26/2^34 values low/high/complemented/shifted, a<<s for all shifts, <=3 bits set or cleared, carry-chain patterns, forward/backward orbits): 2.8e8 values quick, 7e10 thorough.",
+         "The 32-bit pair is decided completely: all 2^32 arguments, both compositions. For the 64-bit pair complete enumeration is impossible; complete structured sub-domains are swept (consecutive blocks of 2^26/2^34 values low/high/complemented/shifted, a<<s for all shifts, <=4 (5) bits set or cleared, carry-chain patterns, forward/backward orbits): 2.8e8 values quick, 7e10 thorough.",
          "64-bit half is not exhaustive (stated in the evidence); a solver would be needed to close it, which is outside this family",
          "DESIGN.md §4 C19"),
  "C20": ("fault_enumeration",
          "crash-point enumeration: every byte prefix of every dumped file; exhaustive alphabet round trips",
-         "For 100 (quick) / 2052 (thorough) parameter tuples the real dump is written and EVERY strict byte prefix of the file (the possible states after a crash during the dump) is reloaded with the real reload_json: the outcome must be Err - a panic or an Ok is a violation; missing file, missing directory, a directory in place of the file and a dump over an existing longer dump are separate cases. Round trip is checked on the cross product of an 18-float x 9-integer boundary alphabet plus 2e4 / 1e6 seeded bit-pattern tuples: m,q exact, a,b exact when <=15 significant digits else within 1 ulp.",
+         "For 100 (quick) / 2052 (thorough) parameter tuples the real dump is written and EVERY strict byte prefix of the file (the possible states after a crash during the dump) is reloaded with the real reload_json: the outcome must be Err - a panic or an Ok is a violation; missing file, missing directory, a directory in place of the file and a dump over an existing longer dump are separate cases. Round trip is checked on the cross product of an 18-float x 9-integer boundary alphabet, the longest files the dump can produce (20-digit integers, negative 17-digit floats with 3-digit exponents), plus 2e4 / 1e6 seeded bit-pattern tuples: m,q exact, a,b exact when <=15 significant digits else within 1 ulp.",
          "a crash leaves a prefix of the single buffered write; parameter space beyond the alphabet is sampled by bit patterns, not exhausted",
          "DESIGN.md §4 C20"),
  "C18": ("exploration",
          "exhaustive input-domain enumeration under memory-error detectors (sub-process abort, valgrind, miri)",
-         "All values of u8/u16/i16 (and all 2^32 of u32/i32 in the thorough tier), a 2e5-pattern alphabet of u64, 627 strings, and every Vec<u8|u16|u32> of length 0..5 (6) over a 5-value boundary alphabet plus lengths 1000 and 1e6 are passed to the real get_sig and compared with an independent native-endian concatenation. Vector types run in supervised sub-processes so that a glibc abort is an observation; the small sweep is repeated under valgrind memcheck (both tiers) and under cargo miri (thorough) so that reads/frees of unowned memory fail loudly. ProbMinHash3aSha is driven with keys of every Sig type in all 24 insertion orders.",
+         "All values of u8/u16/i16 (and all 2^32 of u32/i32 in the thorough tier), a 2e5-pattern alphabet of u64, 627 strings, and every Vec<u8|u16|u32> of length 0..5 (6) over a 5-value boundary alphabet plus lengths 1000 and 1e6 are passed to the real get_sig and compared with an independent native-endian concatenation. Vector types run in supervised sub-processes so that a glibc abort is an observation; every vector is also rebuilt with spare capacity; the small sweep is repeated under valgrind memcheck and under cargo miri (both tiers; miri also checks allocation layouts on free) so that reads/frees of unowned memory fail loudly. ProbMinHash3aSha is driven with keys of every Sig type in all 24 insertion orders.",
          "memory safety is decided by the detectors on the explored values only; u64/String/Vec domains are boundary alphabets",
          "DESIGN.md §4 C18"),
  "C14": ("model_checking",
          "exhaustive enumeration of all sketch pairs up to a bound against a counting reference model",
-         "Counting estimators: every ordered pair of sketches of length 1..5 over a 3-letter alphabet (1.86e6 pairs in all) for each of the 6 free functions and the 2 estimator methods and each element type, compared with count/len computed independently in the type's arithmetic, plus symmetry, value 1 on identical sketches, range, and every length pair la!=lb<=5 (must be Err or panic, never a value). MLE: every ordered pair of register vectors over two 4-letter alphabets, m<=3 (quick) / 4 (thorough), b in {1.001,1.2,2}, and every ordered pair of real sketches of a 15-set family (nested chain 1..1e5, disjoint, identical, 30 vs 20000, empty) for m in {64,256,(4096)}: the real get_mle must return Some(j), j finite in [0,1], without aborting.",
+         "Counting estimators: every ordered pair of sketches of length 1..5 over a 3-letter alphabet (4 letters for floats, two of them one ulp apart; 1.4e7 pairs in all) for each of the 6 free functions and the 2 estimator methods (also on fresh and re-initialised sketchers) and each element type, compared with count/len computed independently in the type's arithmetic, plus symmetry, value 1 on identical sketches, range, and every length pair la!=lb<=5 (must be Err or panic, never a value). MLE: every ordered pair of register vectors over two 4-letter alphabets, m<=3 (quick) / 4 (thorough), b in {1.001,1.2,2}, and every ordered pair of real sketches of a 15-set family (nested chain 1..1e5, disjoint, identical, 30 vs 20000, empty) for m in {64,256,(4096)}: the real get_mle must return Some(j), j finite in [0,1], without aborting.",
          "estimators only compare elements, so longer sketches / larger alphabets are assumed to behave alike; MLE domain limited to the explored register alphabets (cardinality ratios >= 1e-12) and set family",
          "DESIGN.md §4 C14"),
  "C09": ("model_checking",
          "explicit-state BFS (stateright) over the real densified sketchers to a closed state space; supervised termination cases",
-         "The complete internal state of the real OptDensMinHash / RevOptDensMinHash (hook H3) is explored to a fixed point for m<=7 (quick) / 9 (thorough) under sketch(witness item per bin), end_sketch, sketch_slice (4 chunks incl. the empty one) and reinit; each transition replays the shortest history on a fresh real instance. On every finishing edge: populated bins bit-identical, every other bin holds the (value,hash) pair of a populated bin, nb_empty=0, all positions hold hashes of streamed items, u32 view = murmur3(127) of the u64 view, equal u64 entries imply equal float/u32 entries, a second end_sketch is a no-op, sketch_slice = item-wise + end_sketch, reinit = initial state. Every non-empty occupancy pattern is additionally enumerated directly up to m=10 (13). Finishing an empty stream (fresh or after reinit; end_sketch and sketch_slice(&[])) runs in sub-processes with a 5 s horizon: not returning is the violation. A watchdog turns any in-process finishing call that exceeds 20 s into a violation.",
+         "The complete internal state of the real OptDensMinHash / RevOptDensMinHash (hook H3) is explored to a fixed point for m<=7 (quick) / 9 (thorough) under sketch(witness item per bin), end_sketch, sketch_slice (4 chunks incl. the empty one) and reinit; each transition replays the shortest history on a fresh real instance. On every finishing edge: populated bins bit-identical, every other bin holds the (value,hash) pair of a populated bin, nb_empty=0, all positions hold hashes of streamed items, u32 view = murmur3(127) of the u64 view, equal u64 entries imply equal float/u32 entries, a second end_sketch is a no-op, sketch_slice = item-wise + end_sketch, reinit = initial state. No-op-hasher variants use the boundary identifiers u64::MAX, 0, 1 as witnesses, and for m<=2 a pair of items with bit-identical f32 uniform value (found through the real sketcher) is added with the chunks [a,b] and [b,a]. Every non-empty occupancy pattern is additionally enumerated directly up to m=10 (13). Finishing an empty stream (fresh or after reinit; end_sketch and sketch_slice(&[])) runs in sub-processes with a 5 s horizon: not returning is the violation. A watchdog turns any in-process finishing call that exceeds 20 s into a violation.",
          "hook H3 exposes the whole mutable state; densification reads only the occupancy pattern",
          "DESIGN.md §4 C09"),
  "C07": ("exploration",
@@ -52,17 +52,17 @@ CHECKS = {
          "DESIGN.md §4 C07"),
  "C11": ("model_checking",
          "exhaustive enumeration of all sequences up to a length (all permutations of every multiset, all short call histories) against a race-table reference model",
-         "Every sequence of length l..6 (quick) / 8 (thorough) over a 4-5 letter alphabet, repeats included, for l in {1,2,3} and m in {1,2,4,16} (+3,8,33) is hashed by the real ProbOrdMinHash2; hook H4 exposes the selected (index,value) pairs per position. Grouped by multiset (2436 groups quick, 2196 with several permutations): the selected (element,occurrence) set per position must be identical across permutations and equal the l pairs with the smallest race values, the race tables being read from the real code; the signature value must be one injective function of the selected elements in sequence order; l=1 signatures are permutation invariant; a call's result is independent of 1-2 earlier calls on the instance (all choices from a 6-sequence pool). Non-vacuity: thousands of reject-then-accept events (the situation the repaired defect mishandled) are counted.",
+         "Every sequence of length l..6 (quick) / 8 (thorough) over a 4-5 letter alphabet, repeats included, for l in {1,2,3} and m in {1,2,4,16} (+3,8,33), with the Fnv hasher and with the no-op hasher on items whose hashes are the adjacent integers 1..4, is hashed by the real ProbOrdMinHash2; hook H4 exposes the selected (index,value) pairs per position. Grouped by multiset (2436 groups quick, 2196 with several permutations): the selected (element,occurrence) set per position must be identical across permutations and equal the l pairs with the smallest race values, the race tables being read from the real code; the signature value must be one injective function of the selected elements in sequence order; l=1 signatures are permutation invariant; a call's result is independent of 1-2 earlier calls on the instance (all choices from a 7-sequence pool, including refused calls on too-short sequences whose panic is caught). Non-vacuity: thousands of reject-then-accept events (the situation the repaired defect mishandled) are counted.",
          "instance seed pinned through hook H4 (seed randomness belongs to C12); race values assumed independent of l",
          "DESIGN.md §4 C11"),
  "C12": ("exploration",
          "exhaustive enumeration of call interleavings of 2-3 instances (one thread) + free-running threads (sampled) + repeated process launches",
-         "For each of 42 (quick) / 105 (thorough) sketcher kinds (all 9 sketcher types x sizes x register types x entry points incl. std HashMap) every interleaving at call granularity of the call sequences (construction included) of 2 instances x 4 (5) steps and 3 instances x 3 (4) steps is executed, with identical and with different inputs (147000 interleavings quick); each instance must return its solo result. This closes the schedule quantifier at call granularity, which is where state hoisted into a static / thread-local / process global shows; the unchanged crate has no lock or atomic, so there is no finer scheduling point for a controlled scheduler. Then 20 (100) barrier-released rounds of 2..16 OS threads (sampling, labelled as such) and 8 (32) process launches whose digests must agree bit for bit.",
+         "For each of 42 (quick) / 105 (thorough) sketcher kinds (all 9 sketcher types x sizes x register types x entry points incl. std HashMap) every interleaving at call granularity of the call sequences (construction included) of 2 instances x 4 (5) steps and 3 instances x 3 (4) steps is executed, with identical and with different inputs (147000 interleavings quick); each instance must return its solo result. 40 (200) weighted sets of 2000 and 150 items go through the std-HashMap entry points of the four ProbMinHash variants on two instances each (independent iteration orders). This closes the schedule quantifier at call granularity, which is where state hoisted into a static / thread-local / process global shows; the unchanged crate has no lock or atomic, so there is no finer scheduling point for a controlled scheduler. Then 20 (100) barrier-released rounds of 2..16 OS threads (sampling, labelled as such) and 8 (32) process launches whose digests must agree bit for bit.",
          "threads are sampled, not enumerated; a data race inside a call introduced via unsafe would need a race detector",
          "DESIGN.md §4 C12"),
  "C10": ("exploration",
          "exhaustive enumeration of rankings (target value) + exhaustive block enumeration of race tables and labellings on the real code",
-         "The order-min-hash similarity of each sequence pair is computed by enumerating all ranking prefixes (cross-checked against all P! rankings for unions of <=8-9 pairs). By C11 (decided exactly) a position keeps the l smallest race values, so the collision probability equals the target iff the race tables of distinct (element,occurrence) pairs are exchangeable: for every element of a block of 2^14 (2^17) labels the tables of occurrences 1..3 are read from the real code (hook H4); bit-identical values across occurrences must not exist, P(occ_i<occ_j)=1/2, laws equal across occurrences/elements/positions (two-sample KS), no rank correlation. End-to-end: 13 sequence pairs (identical, reversed, shifted, one edit, common prefix, disjoint, repeats, the suite's patterns) x l in {1,2,3,5} x m in {1,4,16,64} = 168 configurations, 2e4..4e5 disjoint labellings each hashed by the same instance; mean within 6 standard errors of the target (exactly 0/1 where the target is 0/1), confirmed on a 4x larger fresh block before reporting.",
+         "The order-min-hash similarity of each sequence pair is computed by enumerating all ranking prefixes (cross-checked against all P! rankings for unions of <=8-9 pairs). By C11 (decided exactly) a position keeps the l smallest race values, so the collision probability equals the target iff the race tables of distinct (element,occurrence) pairs are exchangeable: for every element of a block of 2^19 (2^21) labels the tables of occurrences 1..3 are read from the real code (hook H4); bit-identical values across occurrences must not exist, P(occ_i<occ_j)=1/2, laws equal across occurrences/elements/positions (two-sample KS), no rank correlation, per position and on the per-pair minima. End-to-end: 16 sequence pairs (identical, reversed, shifted, one edit, common prefix, disjoint, repeats, the suite's patterns, long distinct sequences) x l in {1,2,3,5,8,15} x m in {1,4,16,64} = 208 configurations plus the repeated-element pairs under the no-op hasher with consecutive label hashes, 2e4..4e5 disjoint labellings each hashed by the same instance; mean within 6 standard errors of the target (exactly 0/1 where the target is 0/1), confirmed on a 4x larger fresh block before reporting.",
          "finite-population statement about the enumerated blocks; shifts below ~3/sqrt(N) are not resolved",
          "DESIGN.md §4 C10"),
  "C13": ("model_checking",
@@ -72,32 +72,32 @@ CHECKS = {
          "DESIGN.md §4 C13"),
  "C04": ("model_checking",
          "exhaustive operation-sequence exploration: every stream (order, repetition) x every chunking up to a length, grouped by item set",
-         "For 65 (quick) / 104 (thorough) kinds - SuperMinHash f32/f64, SuperMinHash2 u32/u64, SetSketcher u8/u16/u32 with three parameter sets, both densified sketchers f32/f64, sizes {1,2,3,7,64} (+5,16,200) - every stream of length 1..5 (6) over 5 (6) symbols (4-5 single items and a burst of 12 fresh items that drives a_upper / lower_k / nb_empty into their regimes) is run on the real sketcher item-wise, under every one of the 2^(L-1) chunkings into slice calls, and interleaved with empty slice calls; for the densified sketchers item-wise + end_sketch versus one slice call. All streams with the same set of distinct items must produce the bit-identical sketch (all views, cardinality statistics); positions of hash-storing sketches must hold hashes of streamed items (2.8e6 executions quick).",
+         "For 65 (quick) / 104 (thorough) kinds - SuperMinHash f32/f64, SuperMinHash2 u32/u64, SetSketcher u8/u16/u32 with three parameter sets, both densified sketchers f32/f64, sizes {1,2,3,7,64} (+5,16,200) - every stream of length 1..5 (6) over 5 (6) symbols (4-5 single items and a burst of 12 fresh items that drives a_upper / lower_k / nb_empty into their regimes) is run on the real sketcher item-wise, under every one of the 2^(L-1) chunkings into slice calls, and interleaved with empty slice calls; for the densified sketchers item-wise + end_sketch versus one slice call. All streams with the same set of distinct items must produce the bit-identical sketch (all views, cardinality statistics); positions of hash-storing sketches must hold hashes of streamed items (3.5e6 executions quick). No-op-hasher kinds with item 0 (hash 0) are part of the catalogue, and the random value that decides the owner of a position must be distinct over all 2^20 (2^23) items of a block (size-1 sketches; hook H5 for SuperMinHash2), with a concrete two-order witness when it is not.",
          "SetSketch's overflow counter and lazily maintained lower bound are diagnostics, not part of the sketch (C05 speaks about them); longer streams assumed alike",
          "DESIGN.md §4 C04"),
  "C05": ("model_checking",
          "exhaustive enumeration: all subsets against the join of real single-item sketches; all operation sequences over three instances against a set model",
-         "Join: every non-empty subset of a 10 (12) item alphabet, all orders for |S|<=4 and four canonical orders above, is sketched with the real code and compared with the position-wise min (SuperMinHash f32/f64) resp. max (SetSketcher u8/u16/u32, 5 (b,q) sets incl. clipping q=3, m in {1,5,16,(2,40)}) of the REAL single-item sketches; the reported lowest register must not exceed the true minimum. Merge: ALL sequences up to depth 5 (6) over 18 operations on three same-parameter instances (2 shared items, 1 own item and 1 overlapping burst per instance; 6 ordered merges), 8.4e6 sequences quick: the final state of every instance must equal the join over a set model in which merge is union, and the estimate must not decrease on the last operation. Commutativity, associativity, idempotence, merge = sketch of the union and streaming-after-merge are asserted on all triples of a 16-set family with empty sides; merges between 32 parameter pairs differing in exactly one of b,m,a,q (u16 and overflowing u8 registers) must be refused and leave signature, overflow count, lowest register and estimate unchanged.",
+         "Join: every non-empty subset of a 10 (12) item alphabet, all orders for |S|<=4 and four canonical orders above, is sketched with the real code and compared with the position-wise min (SuperMinHash f32/f64) resp. max (SetSketcher u8/u16/u32, 5 (b,q) sets incl. clipping q=3, m in {1,5,16,(2,40)}) of the REAL single-item sketches (SuperMinHash item-wise and through one slice call, also with the no-op hasher on an alphabet containing item 0); the reported lowest register must not exceed the true minimum. Merge: ALL sequences up to depth 5 (6) over 18 operations on three same-parameter instances (2 shared items, 1 own item and 1 overlapping burst per instance; 6 ordered merges), 8.4e6 sequences quick: the final state of every instance must equal the join over a set model in which merge is union, and the estimate must not decrease on the last operation. Commutativity, associativity, idempotence, merge = sketch of the union and streaming-after-merge are asserted on all triples of a 16-set family with empty sides; merges between 32 parameter pairs differing in exactly one of b,m,a,q (u16 and overflowing u8 registers) must be refused and leave signature, overflow count, lowest register and estimate unchanged.",
          "differences below 1e-6 relative are not claimed as 'different parameters'; larger alphabets / deeper sequences assumed alike",
          "DESIGN.md §4 C05"),
  "C03": ("model_checking",
          "exhaustive enumeration of all labellings of a hash-seed block (exact integer identity, Lemma 1) + finite-population partition estimates",
-         "Unbiasedness is decided as an exact integer identity on the real sketchers: for 7 variants (SuperMinHash f32/f64, SuperMinHash2 u32/u64; Fnv, XxHash32, no-op hashers), m in {1,2,3,5,8,16,33}, every set shape with union <=4 (5) and EVERY assignment of the identifiers of a block of 10 (13) to its roles (7.6e5 subset triples, 7e6 position comparisons quick), the number of labellings in which position p of sketch(A) and sketch(B) agree times |A∪B| equals the number of labellings times |A∩B| - no tolerance. A broken identity is arbitrated on 2e5 fresh labellings before it is reported, since the property speaks of the expectation. Large / lopsided shapes (singleton in 1e4, m>>n, m<<n, m=1) are checked on T disjoint labellings: |mean-J|<=6se and MSE<=J(1-J)/m+6se. The single-item law is checked on 2^16 (2^19) items: integer parts a permutation (exact), orders equally frequent (chi2), fractions uniform (KS) and uncorrelated.",
+         "Unbiasedness is decided as an exact integer identity on the real sketchers: for 9 variants (SuperMinHash f32/f64, SuperMinHash2 u32/u64; Fnv, XxHash32, no-op hashers; fresh instances and instances reused after reinit), m in {1,2,3,5,8,16,33}, every set shape with union <=4 (5) and EVERY assignment of the identifiers of a block of 10 (13) to its roles (7.6e5 subset triples, 7e6 position comparisons quick), the number of labellings in which position p of sketch(A) and sketch(B) agree times |A∪B| equals the number of labellings times |A∩B| - no tolerance. A broken identity is arbitrated on 2e5 fresh labellings before it is reported, since the property speaks of the expectation. Large / lopsided shapes (singleton in 1e4, m>>n, m<<n, m=1) are checked on T disjoint labellings: |mean-J|<=6se and MSE<=J(1-J)/m+6se. The single-item law is checked on 2^16 (2^19) items: integer parts a permutation (exact), orders equally frequent (chi2), fractions uniform (KS) and uncorrelated.",
          "Lemma 1 (DESIGN §2) holds for sketchers that are set functions with label-independent winners and blocks without ties; statistical parts are finite-population statements with a 6 sigma / confirm rule",
          "DESIGN.md §2, §4 C03"),
  "C08": ("model_checking",
          "exhaustive enumeration of all labellings of a hash-seed block (exact integer identity, Lemma 1) on the densified sketchers, all three views",
-         "For OptDensMinHash and RevOptDensMinHash (float f32/f64, u64 and u32 views; Fnv and no-op hashers), sketch sizes m in {1,2,3,5,8,16,33,64} - from m << |S| to m = 16|S| where >95% of bins are produced by densification - every set shape with union <=4 (5) and EVERY assignment of block identifiers (10 (13) ids, two blocks; 6.7e5 subset triples, 3.5e7 position comparisons quick): collisions(p) x |A∪B| == labellings x |A∩B| for every position and view, exactly. Broken identities are arbitrated on 2e5 fresh labellings. Six large-set shapes (dense, sparse, very sparse, nested 4e4, lopsided, m=1) x 4 variants x 3 views are confirmed on T disjoint labellings within 6 standard errors. A watchdog reports a densification that does not return.",
+         "For OptDensMinHash and RevOptDensMinHash (float f32/f64, u64 and u32 views; Fnv and no-op hashers), sketch sizes m in {1,2,3,5,8,16,33,64} - from m << |S| to m = 16|S| where >95% of bins are produced by densification - every set shape with union <=4 (5) and EVERY assignment of block identifiers (10 (13) ids, two blocks; 6.7e5 subset triples, 3.5e7 position comparisons quick): collisions(p) x |A∪B| == labellings x |A∩B| for every position and view, exactly. Broken identities are arbitrated on 2e5 fresh labellings. The per-item uniform value of the f64 sketchers must be distinct over 2^18 (2^21) single-item sketches (a coarser grid makes large bins tie on different items). Six large-set shapes (dense, sparse, very sparse, nested 4e4, lopsided, m=1) x 4 variants x 3 views are confirmed on T disjoint labellings within 6 standard errors. A watchdog reports a densification that does not return.",
          "Lemma 1 preconditions (no ties inside the block) are covered by arbitration; partition part is a finite-population statement",
          "DESIGN.md §2, §4 C08"),
  "C02": ("model_checking",
          "exhaustive enumeration of all weighted sets x all insertion orders x all entry points against the composition of the real single-item runs",
-         "For ProbMinHash2, 3, 3a and 3a-Sha (u64 and String keys), m in {2,3,4,8,16,(33)}: every non-empty weighted set over 4 (5) items x weights {absent,0.5,1,3,1e-300,1e300} (26975 sets quick), ALL insertion orders, every entry point (hash_item, hash_wset, IndexMap, std HashMap whose order is per-process random), every 2-way batch split and every re-insertion of an inserted pair at every later point - 2.3e6 executions quick. Oracle (exact): the registers read through hook H2 equal the position-wise minimum, and the signature the argmin, of the REAL single-item runs, which makes the signature a function of the weighted set; bit-equal ties are classified; every position holds an item of the set. Forced near-ties (weights tuned from real single-item runs so that two items differ by 1e-9..3e-15 at a chosen position, both orders), scaling by 2^k, the union clause on sets up to 300 items, ProbMinHash3 == ProbMinHash3a on all sets, and single items with weights down to the smallest normal float (known finding for w < 1e-304).",
+         "For ProbMinHash2, 3, 3a (Fnv and no-op hashers) and 3a-Sha (u64 and String keys), m in {2,3,4,8,16,(33)}: every non-empty weighted set over 4 (5) items x weights {absent,0.5,1,3,1e-300,1e300} (46400 sets quick), ALL insertion orders, every entry point (hash_item, hash_wset, IndexMap, std HashMap whose order is per-process random), every 2-way batch split and every re-insertion of an inserted pair at every later point - 2.3e6 executions quick. Oracle (exact): the registers read through hook H2 equal the position-wise minimum, and the signature the argmin, of the REAL single-item runs, which makes the signature a function of the weighted set; bit-equal ties are classified; every position holds an item of the set. Forced near-ties (weights tuned from real single-item runs so that two items differ by 1e-9..3e-15 at a chosen position, both orders), all subsets/orders with a placeholder object that is itself an item id, 40 (300) sets of 2000/300/150/50/40/30 items in forward/reversed/shuffled order through every entry point, ProbMinHash3 == 3a on hundreds of two-item sets at m = 5000/2000/3001, scaling by 2^k, the union clause on sets up to 300 items, ProbMinHash3 == ProbMinHash3a on all sets, and single items with weights down to the smallest normal float (known finding for w < 1e-304).",
          "hook H2 faithful; other weights/items behave like the alphabet since only comparisons of values scaling as 1/w matter",
          "DESIGN.md §4 C02"),
  "C06": ("exploration",
          "exhaustive stream enumeration (monotonicity), exhaustive enumeration of reduction orders with trace validation (parallel estimator), block enumeration of disjoint sets (accuracy)",
-         "Monotone: every stream of length 5 (6) over {6 items, a burst of 12, a merge with a fixed sketch} for 5 parameter sets (1.6e5 streams quick) - the estimate never decreases after any step (exact). Parallel estimator: rayon's scheduler cannot be controlled, so its nondeterminism is modelled: for m<=9 (11) and 3 bases ALL Catalan(m-1) bracketings of the sum of register terms are enumerated, each must agree with the sequential estimate within m*2^-52, and the real get_cardinal_estimate run under pools of 1,2,3,4,8,16 threads must be a member of the modelled outcome set (2916 real runs validated); on every accuracy sketch the parallel and sequential estimates must agree to rounding. Accuracy: n in {1,2,10,1e3,1e5,(1e6)} x m in {64,256,(1024,4096)} x 3 (b,q) x u16/u32 x with/without repetition on T disjoint sets (T=36m where the budget allows): |mean(n^/n)-1| <= 2 rsd^2 + 6 se and |sd/rsd-1| <= 0.15 + 6 se, confirmed on a 4x larger fresh block.",
+         "Monotone: every stream of length 5 (6) over {6 items, a burst of 12, merges with two different fixed sketches} for 5 parameter sets (1.6e5 streams quick) - the estimate never decreases after any step (exact). Parallel estimator: rayon's scheduler cannot be controlled, so its nondeterminism is modelled: for m<=9 (11) and 3 bases ALL Catalan(m-1) bracketings of the sum of register terms are enumerated, each must agree with the sequential estimate within m*2^-52, and the real get_cardinal_estimate run under pools of 1,2,3,4,8,16 threads must be a member of the modelled outcome set (2916 real runs validated); on every accuracy sketch the parallel and sequential estimates must agree to rounding. Accuracy: n in {1,2,10,1e3,1e5,(1e6)} x m in {64,256,(1024,4096)} x 3 (b,q) x u16/u32 x with/without repetition, plus tiny sets (n = 2, 5, 8) on m = 4096, on T disjoint sets (T=36m where the budget allows): |mean(n^/n)-1| <= 2 rsd^2 + 6 se and |sd/rsd-1| <= 0.15 + 6 se, confirmed on a 4x larger fresh block.",
          "rayon reduction modelled as order-preserving bracketings (validated by membership of real runs); accuracy is a finite-population statement (observed bias ~ rsd^2, i.e. half the allowed 2 rsd^2)",
          "DESIGN.md §4 C06"),
  "C01": ("exploration",
